@@ -7,7 +7,7 @@ namespace Drv.C20
 
 def obsOf (l : Line) : _root_.C20.Obs :=
   { globalsChanged := list l "g.changed", suppliedChanged := list l "s.changed", behaviourChanged := list l "b.changed",
-    othersChanged := list l "o.changed", races := nat l "races", panicked := bool l "panic" }
+    othersChanged := list l "o.changed", instanceBehaviourChanged := list l "ib.changed", races := nat l "races", panicked := bool l "panic" }
 
 def monStr (l : Line) : String :=
   match _root_.C20.monitor (obsOf l) with
@@ -24,7 +24,7 @@ def obsStr (l : Line) : String :=
   | "race" => "race:" ++ esc (str l "race.w") ++ "~" ++ esc (str l "race.o")
   | "mix" => "reports:" ++ toString (nat l "reports")
   | _ => "g:" ++ esc (join o.globalsChanged) ++ ";s:" ++ esc (join o.suppliedChanged) ++ ";b:" ++ esc (join o.behaviourChanged) ++
-         ";o:" ++ toString o.othersChanged.length
+         ";o:" ++ toString o.othersChanged.length ++ ";ib:" ++ esc (join o.instanceBehaviourChanged)
 
 def classOf (l : Line) : String :=
   match str l "kind" with
